@@ -52,6 +52,7 @@ class _TextParser(HTMLParser):
 
   def __init__(self, paragraph: model.P, line_number: int) -> None:
     self.line_num: int = line_number
+    self.paragraph: model.P = paragraph
     self.parent: model.ContentElement = paragraph
     super().__init__()
 
@@ -87,6 +88,10 @@ class _TextParser(HTMLParser):
       return
 
   def handle_endtag(self, tag):
+    if self.parent is self.paragraph:
+      LOGGER.warning("Unmatched end tag %s at line %s", tag, self.line_num)
+      return
+
     self.parent = self.parent.parent()
 
   def handle_data(self, data):
